@@ -889,3 +889,68 @@ func replayParamCombine(rc *runCtx, h *harness, v *interp.Violation, file string
 	}
 	return false, "native: the suggested signature type-checks with the existing call"
 }
+
+// ---- C05 SizeOf: native confirmation that sizing a type writes to the shared context.
+const ctxSizeOfTest = `package linter
+
+import (
+	"fmt"
+	"go/token"
+	"go/types"
+	"testing"
+)
+
+func TestGSXCtxSizeOf(t *testing.T) {
+	sizes := types.SizesFor("gc", "amd64")
+	ctx := NewContext(token.NewFileSet(), sizes)
+	ctx.SetPackageInfo(&types.Info{}, types.NewPackage("p", "p"))
+	cc := &CheckerContext{Context: ctx}
+	before := fmt.Sprintf("%#v", *ctx)
+	cc.SizeOf(types.NewArray(types.Typ[types.Int64], 4))
+	cc.SizeOf(types.NewNamed(types.NewTypeName(token.NoPos, ctx.Pkg, "T", nil), types.NewStruct(nil, nil), nil))
+	after := fmt.Sprintf("%#v", *ctx)
+	if before != after {
+		i := 0
+		for i < len(before) && i < len(after) && before[i] == after[i] {
+			i++
+		}
+		lo := i - 60
+		if lo < 0 {
+			lo = 0
+		}
+		hi := func(s string) int {
+			if i+80 < len(s) {
+				return i + 80
+			}
+			return len(s)
+		}
+		fmt.Printf("GSX-CTX-DIFF the shared linter.Context differs after SizeOf: ...%s  =>  ...%s\n", before[lo:hi(before)], after[lo:hi(after)])
+		return
+	}
+	fmt.Println("GSX-CTX-SAME")
+}
+`
+
+func replayCtxSizeOf(rc *runCtx, h *harness, v *interp.Violation, file string) (bool, string) {
+	if v.Kind != "write" {
+		return false, "not a write"
+	}
+	tmp, err := os.MkdirTemp("", "gsx-ctxsizeof-")
+	if err != nil {
+		return false, err.Error()
+	}
+	defer os.RemoveAll(tmp)
+	tf := filepath.Join(tmp, "zz_verif_ctxsizeof_test.go")
+	os.WriteFile(tf, []byte(ctxSizeOfTest), 0o644)
+	out, err := runGoTest(tmp, map[string]string{filepath.Join(repoDir, "linter", "zz_verif_ctxsizeof_test.go"): tf},
+		[]string{"-v", "-vet=off", "-count=1", "-run", "^TestGSXCtxSizeOf$", "./linter"}, nil)
+	if err != nil {
+		return false, err.Error()
+	}
+	for _, l := range strings.Split(out, "\n") {
+		if strings.HasPrefix(l, "GSX-CTX-DIFF") {
+			return true, strings.TrimPrefix(l, "GSX-CTX-DIFF ")
+		}
+	}
+	return false, "native: the context is unchanged after SizeOf (" + lastLines(out, 2) + ")"
+}
